@@ -18,7 +18,7 @@ UNIT = dict(
     bounds={"fragments_per_map": "<=2 in the symbolic pre-state (arbitrary u32 fragment ids), capacity 4",
             "bitmap": "each fragment's bitmap is an arbitrary finite or co-finite set w.r.t. 4 symbolic row offsets",
             "probe": "post-conditions are pointwise on an arbitrary u64 row id"},
-    outside=["into_arrow/from_arrow (Arrow framing)", "serialize_into/deserialize_from (see unit mask_ser)",
+    outside=["RowIdTreeMap::union_all / RowIdSelection::union_all (collect selections into real Vecs per fragment: RawVec growth ran CBMC out of memory; the pairwise |= it is equivalent to is decided)", "into_arrow/from_arrow (Arrow framing)", "serialize_into/deserialize_from (see unit mask_ser)",
              "sets whose bitmaps need more than 3 intervals", "maps with more than 4 fragments"],
 )
 
